@@ -95,7 +95,9 @@ const tssPubKey = "AsAQx1M3LVXCuozDOqO5b9adj/PItYgwZFG/xTDBiZzT" // key pair of 
 // bridgeScript configures the bridge (orchestrator, two networks, guardians, tss key, two token
 // pairs; every time-challenged call twice with the delay in between) and files wrap requests.
 // It returns the first refusal (the world is still usable, only without bridge entries).
-func bridgeScript(h *sim.Hist, wraps int) error {
+func bridgeScript(h *sim.Hist, wraps int) error { return bridgeScriptN(h, wraps, wraps/2) }
+
+func bridgeScriptN(h *sim.Hist, wraps, unwraps int) error {
 	admin := bridgeAdmin()
 	call := func(from types.Address, z types.ZenonTokenStandard, amt int64, descr string, method string, args ...interface{}) error {
 		data := definition.ABIBridge.PackMethodPanic(method, args...)
@@ -187,7 +189,7 @@ func bridgeScript(h *sim.Hist, wraps int) error {
 		return err
 	}
 	// unwrap requests signed with the test tss key
-	for i := 0; i < wraps/2; i++ {
+	for i := 0; i < unwraps; i++ {
 		chain, tokenAddr := uint32(123), "0x5fbdb2315678afecb367f032d93f642f64180aa3"
 		if i%3 == 2 {
 			chain, tokenAddr = uint32(124), "0x6fbdb2315678afecb367f032d93f642f64180aa3"
@@ -686,4 +688,78 @@ var (
 func unreceivedCount(v *View) int {
 	m, _ := v.Unreceived(v.Sink)
 	return len(m)
+}
+
+// ---- the huge world: more than RpcMaxPageSize entries in the lists served without a cap ---------
+
+var (
+	hugeOnce sync.Once
+	hugeView *View
+	hugeErr  error
+)
+
+const hugeEntries = api.RpcMaxPageSize + 6
+
+// HugeView holds > 1024 accelerator projects, wrap requests and unwrap requests.
+func HugeView(t *testing.T) *View {
+	hugeOnce.Do(func() {
+		start := time.Now()
+		out, journal := os.Getenv("VERIF_OUT"), os.Getenv("VERIF_JOURNAL")
+		os.Unsetenv("VERIF_OUT")
+		os.Unsetenv("VERIF_JOURNAL")
+		defer func() {
+			if out != "" {
+				os.Setenv("VERIF_OUT", out)
+			}
+			if journal != "" {
+				os.Setenv("VERIF_JOURNAL", journal)
+			}
+		}()
+		pbt.CheckOnce(t, "C18", func(c *pbt.C) {
+			c.Src = &detSrc{s: 1899}
+			hugeView, hugeErr = buildHuge(c)
+		})
+		if hugeView != nil {
+			fmt.Fprintf(os.Stderr, "C18: huge world built in %.1fs: %d momentums\n", time.Since(start).Seconds(), hugeView.Frontier)
+		}
+	})
+	if hugeView == nil {
+		t.Fatalf("C18: huge world could not be built: %v", hugeErr)
+	}
+	return hugeView
+}
+
+func buildHuge(c *pbt.C) (*View, error) {
+	spec := sim.DefaultSpec(2, 5)
+	spec.ActiveSporks = 2
+	var fuser types.Address
+	copy(fuser[:], types.NewHash([]byte("c18-fuser")).Bytes()[:20])
+	fuser[0] = 0
+	for i := 0; i < 5; i++ {
+		spec.Fusions = append(spec.Fusions, sim.FusionSpec{Owner: fuser, Beneficiary: sim.UserKey(i).Address, Amount: 5000, Id: types.NewHash([]byte(fmt.Sprintf("c18-huge-fusion-%d", i)))})
+	}
+	h := newHistNoCleanup(c, spec, worldOpts())
+	for i := 0; i < 3; i++ {
+		h.Produce(0)
+	}
+	if err := bridgeScriptN(h, hugeEntries, hugeEntries); err != nil {
+		return nil, err
+	}
+	busy := sim.UserKey(0).Address
+	for i := 0; i < hugeEntries; i++ {
+		data := definition.ABIAccelerator.PackMethodPanic(definition.CreateProjectMethodName, fmt.Sprintf("p%d", i), "d", "www.verif.test", big.NewInt(sim.Zexp), big.NewInt(sim.Zexp))
+		if _, err := h.Submit(&nom.AccountBlock{Address: busy, ToAddress: types.AcceleratorContract, TokenStandard: types.ZnnTokenStandard,
+			Amount: new(big.Int).Set(constants.ProjectCreationAmount), Data: data}, "project"); err != nil {
+			return nil, fmt.Errorf("project %d: %v", i, err)
+		}
+		if i%40 == 39 {
+			if !h.Produce(0) {
+				return nil, fmt.Errorf("producer stopped")
+			}
+		}
+	}
+	for i := 0; i < 3; i++ {
+		h.Produce(0)
+	}
+	return NewView("huge", h.A, h.Users, pillarNames(h), true)
 }
